@@ -1,13 +1,13 @@
 package main
 
 import (
-	"strings"
-	"errors"
-	"sync/atomic"
 	"context"
 	"encoding/binary"
+	"errors"
 	"fmt"
 	"net"
+	"strings"
+	"sync/atomic"
 	"time"
 
 	dht "github.com/anacrolix/dht/v2"
@@ -302,7 +302,6 @@ func (r *Run) c07Scenario(sc int) {
 	}
 }
 
-
 // State left behind by a finished query must not complete a later one. Query A's datagram is held in
 // the socket write; A is cancelled and its genuine reply arrives in either order (the transaction is
 // still registered while the sender is blocked); the write is released and A returns. Query B (same
@@ -450,7 +449,6 @@ func (r *Run) c07LateReply(i int) {
 		r.sample(events)
 	}
 }
-
 
 // Queries that end without ever reaching the wire (socket error, cancelled before the send) while younger
 // queries are outstanding: whatever is rolled back for the unsent one, the IDs of outstanding queries stay
